@@ -114,6 +114,12 @@ pub fn instantiate_matrix(opts: &Opts, st: &mut Stats, thorough: bool) -> Vec<Hi
         ("approvers", json!(["ok1", "x"])),
         ("executors", json!(["exec1", "appr1"])),
         ("approvers", json!(["appr1", "appr1", "exec1"])),
+        // lists that are not empty as lists but hold blank or padded entries
+        ("executors", json!([""])),
+        ("approvers", json!(["", " "])),
+        ("executors", json!(["exec1", ""])),
+        ("approvers", json!(["appr1", "   "])),
+        ("executors", json!(["Exec1"])),
         ("supported_quote_denoms", json!(["q0", "q0", "q1"])),
         ("convertible_base_denoms", json!(["conv0", "base", "conv0"])),
     ];
@@ -245,6 +251,10 @@ pub fn modify_matrix(opts: &Opts, st: &mut Stats, thorough: bool) -> Vec<History
                 // cross combinations: one list empty while the other is supplied non-empty; duplicated entries
                 [json!([]), json!(["exec1", "dave"]), json!("0.01"), json!("feeb"), json!("0.020"), json!("feeb"), json!([]), json!([])],
                 [json!(["appr1", "appr1", "carol", "carol"]), json!([]), json!("0.01"), json!(""), json!(""), json!("feea"), json!(["kyc", "kyc"]), json!(["acc"])],
+                // lists that are not empty as lists but hold only blank entries / a blank entry among real ones
+                [json!([""]), json!([" "]), json!("0.01"), json!("feea"), json!("0.02"), json!("feeb"), json!([]), json!([])],
+                [json!(["appr1", "carol", ""]), json!(["exec1", " "]), json!("0.01"), json!("feea"), json!("0.02"), json!("feeb"), json!([""]), json!([" "])],
+                [json!(["", " "]), json!(["", ""]), json!("0.01"), json!("feea"), json!("0.02"), json!("feeb"), json!([]), json!([])],
             ];
             let names = ["approvers", "executors", "ask_fee_rate", "ask_fee_account", "bid_fee_rate", "bid_fee_account", "ask_required_attributes", "bid_required_attributes"];
             for mask in 0u32..256 {
@@ -345,6 +355,9 @@ pub fn version_matrix(opts: &Opts, st: &mut Stats) -> Vec<History> {
         json!({"ask_fee_rate": "0.030000000000000000000000000000", "ask_fee_account": "feeb"}),
         json!({"bid_fee_rate": "0.002500000000000000000000000000", "bid_fee_account": "carol", "approvers": ["appr1"]}),
         json!({"approvers": []}),
+        json!({"approvers": [""]}),
+        json!({"approvers": [" ", ""]}),
+        json!({"approvers": ["appr1", ""]}),
         json!({"ask_fee_rate": "0.03"}),
         json!({"bid_fee_account": "feea"}),
         json!({"bid_fee_rate": "zz", "bid_fee_account": "feea"}),
